@@ -843,7 +843,29 @@ func (w *World) converged() bool {
 	return true
 }
 
+// nontrivialFor says whether the property's own oracle was exercised on a
+// non-empty case in this run.
+func (w *World) nontrivialFor() bool {
+	st := w.stats
+	switch w.cfg.Profile {
+	case "C05":
+		return st["probe.light.verified"] > 0
+	case "C06":
+		return st["reach.revert-nonempty"] > 0
+	case "C09":
+		return st["probe.c09.validate"] > 0 && st["probe.c09.apply"] > 0
+	case "C10":
+		return st["fault.bitflip"]+st["fault.truncate"]+st["fault.splice"]+st["probe.crash"] > 0
+	case "C20":
+		return st["probe.light.json-update"] > 0
+	case "C02", "C03", "C04", "C07", "C08", "C12", "C14", "C17", "C18":
+		return st["probe.rows-run"] > 0
+	}
+	return st["world.mined"] > 0 && w.nontrivial
+}
+
 func (w *World) finish() {
+	w.nontrivial = w.nontrivialFor()
 	if debugHook != nil {
 		debugHook(w)
 		debugLines = w.log.Tail(debugKeep)
